@@ -132,6 +132,12 @@ class MinPathCover(pathmodel.AbstractPathModelDAG):
             utils.logger.error(f"cover_type must be either 'node' or 'edge', not {self.cover_type}")
             raise ValueError(f"cover_type must be either 'node' or 'edge', not {self.cover_type}")
 
+        # The k-models built in solve() receive the user's inputs unchanged (they perform their own
+        # node expansion and source/sink augmentation)
+        self._G_input = G
+        self._subpath_constraints_input = subpath_constraints
+        self._elements_to_ignore_input = elements_to_ignore
+
         self.G = stdag.stDAG(self.G_internal, additional_starts=additional_starts_internal, additional_ends=additional_ends_internal)
         self.subpath_constraints = subpath_constraints_internal
         self.edges_to_ignore = self.G.source_sink_edges.union(edges_to_ignore_internal)
@@ -168,13 +174,14 @@ class MinPathCover(pathmodel.AbstractPathModelDAG):
                 i_solver_options["time_limit"] = self.time_limit - self.solve_time_elapsed
 
             model = kpathcover.kPathCover(
-                        G=self.G,
+                        G=self._G_input,
                         k=i,
-                        subpath_constraints=self.subpath_constraints,
+                        cover_type=self.cover_type,
+                        subpath_constraints=self._subpath_constraints_input,
                         subpath_constraints_coverage=self.subpath_constraints_coverage,
                         subpath_constraints_coverage_length=self.subpath_constraints_coverage_length,
                         length_attr=self.length_attr,
-                        elements_to_ignore=self.edges_to_ignore,
+                        elements_to_ignore=self._elements_to_ignore_input,
                         additional_starts=self.additional_starts,
                         additional_ends=self.additional_ends,
                         optimization_options=self.optimization_options,
@@ -231,7 +238,7 @@ class MinPathCover(pathmodel.AbstractPathModelDAG):
     def get_lowerbound_k(self):
 
         if self._lowerbound_k is None:
-            stG = stdag.stDAG(self.G)
-            self._lowerbound_k = stG.get_width(edges_to_ignore=self.edges_to_ignore)
+            # self.G is already the s-t augmented graph, and self.edges_to_ignore contains its source/sink edges
+            self._lowerbound_k = self.G.get_width(edges_to_ignore=list(self.edges_to_ignore))
 
         return self._lowerbound_k
